@@ -40,8 +40,8 @@ def table(ctx):
 
 
 def histories(ctx, count=None, extra_seed=0):
-    # 16 styles, taken in turn: 25 histories of each in the quick tier
-    n = count or (400 if ctx["tier"] == "quick" else 5000)
+    # 17 styles, taken in turn: 25 histories of each in the quick tier
+    n = count or (425 if ctx["tier"] == "quick" else 5100)
     # the generator walks the model with the real score table (the worker path of a run, hence tick's `running`,
     # depends on whether the current pattern has matches)
     tpath = table(ctx)[0]
@@ -119,6 +119,9 @@ class Track:
             self.stream += 1
         elif p[0] == "edit":
             self.pattern = int(p[1])
+        elif p[0] == "cfg":
+            # Nucleo::update_config with the unchanged configuration: nothing the history determines changes
+            pass
         elif p[0] == "push" and p[2] in self.inj:
             self.pushes[p[1]] = {"g": int(p[3]), "stage": 0, "stream": self.inj[p[2]], "idx": None}
         elif p[0] == "ext" and p[2] in self.inj:
@@ -163,10 +166,16 @@ def generic(ctx, oracle, rule, nhist=None, extra_seed=0):
         res["disagreements"].append({"what": e})
     nobs = 0
     nt = 0
+    evdist = {}     # input distribution: events by kind over all histories
+    ncfg = 0        # histories with at least one update_config
     # an oracle that declares a parameter `mobs` also gets the model's observation list of the same history
     wants_model = "mobs" in inspect.signature(oracle).parameters
     for line, io, mo in recs:
         nobs += len(io)
+        kinds = [e.strip().split(" ")[0] for e in line.split(";")]
+        for kd in kinds:
+            evdist[kd] = evdist.get(kd, 0) + 1
+        ncfg += "cfg" in kinds
         if io != mo and len(res["disagreements"]) < 30:
             k = next((j for j in range(min(len(io), len(mo))) if io[j] != mo[j]), min(len(io), len(mo)))
             evs = line.split(";")
@@ -182,11 +191,11 @@ def generic(ctx, oracle, rule, nhist=None, extra_seed=0):
                 res["failures"].append({"class": cls, "what": what + " -- history: " + line[:500], "case": line})
     res["distinct_nontrivial"] = nt
     res["samples"] = [{"history": r[0][:300], "implementation": ";".join(r[1])[:400]} for r in recs[:3]]
-    res["extra"] = {"observations": nobs}
+    res["extra"] = {"observations": nobs, "distribution(event kind)": dict(sorted(evdist.items())), "histories_with_update_config": ncfg}
     return res
 
 
-RULE = ("model-guided random walks over a Nucleo with TWO matcher columns (the extracted protocol model enumerates the ENABLED events; 16 styles: general, writers parked between reservation and publication, restart-heavy, "
+RULE = ("model-guided random walks over a Nucleo with TWO matcher columns (the extracted protocol model enumerates the ENABLED events; 17 styles: general, writers parked between reservation and publication, restart-heavy, "
         "zero-timeout ticks racing the end of the run, no initial items, cancel-heavy, retype = the worker settles on a pattern and the history ends with a non-append edit directly "
         "followed by an append edit, stale run at restart = a finished but uncollected run, restart, a zero-timeout tick that times out on the first run over the new stream, observations, "
         "bulk = the history starts with one or two Injector::extend calls of 25-60 items cycling through a few pool texts so that more than 20 matches tie on (score, total length) interleaved with others, "
@@ -198,7 +207,9 @@ RULE = ("model-guided random walks over a Nucleo with TWO matcher columns (the e
         "another yield point while the run holds the lock and that it arrives at tick.before_spawn as soon as the run has released it, "
         "rescore run cancelled before it starts = the worker settled on P0, a non-append edit to an unrelated P1 and a zero-timeout tick leave a Rescore run parked at run.start, an extension P2 of P1 typed with append = true, a tick that sets the cancel flag before that run has done anything, "
         "run cancelled between scan and sort then an append edit = items chosen with the score table (some that do not match the pattern P, then some that match an extension P' of P), a zero-timeout tick and one step leave a run parked at run.before_sort whose list holds placeholders "
-        "(the scoring scan over new items after the worker settled on P or over a restarted stream, or the in-place re-scoring of an append edit P0 -> P), P' typed with append = true, a tick that cancels the sort - the list keeps placeholders and unsorted real entries - and the Update run that re-scores that list in place): "
+        "(the scoring scan over new items after the worker settled on P or over a restarted stream, or the in-place re-scoring of an append edit P0 -> P), P' typed with append = true, a tick that cancels the sort - the list keeps placeholders and unsorted real entries - and the Update run that re-scores that list in place, "
+        "update_config between runs and ticks = the worker settled, then rounds of new published items, Nucleo::update_config, a tick (mostly its non-cancelling branch) whose run must score, notify and be picked up as usual, update_config again while the pool thread is between the release of the lock and the end of its closure; "
+        "in EVERY style Nucleo::update_config is called now and then - always with the configuration the Nucleo was created with, only where the model says the call returns (no tick in progress, worker lock free), on a controlled thread so that a call that blocks is reported instead of hanging -: it must leave cancel flag, notification flag, snapshot and worker state alone): "
         "injector threads pushing items (Injector::push) or batches (Injector::extend: the whole range reserved at once, published in index order in chunks chosen by the schedule) of a 24-entry pool of (column 0, column 1) texts whose total length differs from the column 0 length, "
         "pattern edits over an 18-entry pool of (column 0, column 1) pattern texts - every column whose text changes is reparsed, with truthful append "
         "flags (the model's single edit event carries 'every changed column was an append', exact because the real status is the maximum over the columns) -, restarts, ticks with timeout 0 or long, each thread parked at every yield point and stepped by the schedule; every history winds down to quiescence (writers finish, "
